@@ -478,7 +478,14 @@ pub fn gen_instance(rng: &mut Rng, cfg: &InstCfg) -> GenInstance {
             if rng.bool() {
                 params.insert(rng.ascii_word(3), rng.ascii_word(3));
             }
-            inst.removed_constraints.push(removed(c, &rng.ascii_word(5), params));
+            // the reason is free text: the empty string and a blank are reasons like any other
+            let word = rng.ascii_word(5);
+            let reason = match rng.below(8) {
+                0 => "",
+                1 => " ",
+                _ => word.as_str(),
+            };
+            inst.removed_constraints.push(removed(c, reason, params));
         }
     }
     if cfg.metadata && rng.chance(1, 3) {
